@@ -154,6 +154,11 @@ fn parse_inline_tag(tokens: &[Token]) -> Option<usize> {
             ..
         })
     ) {
+        // Unterminated tag: there is no closing brace to find.
+        if cursor >= tokens.len() {
+            return None;
+        }
+
         cursor += 1;
     }
 
